@@ -156,7 +156,8 @@ def c02(ctx):
             ctx.sample({"system": NAME, "a": strs[0], "b": strs[-1], "go": m[n - 1], "spec": sx(spec[n - 1])})
     # tie between strings and the structures of theorem C02_gem_partial: for lower-case strings without a dot-dash the
     # parse (repaired trimming) stands for exactly the canonical segments Gem::Version scans from the string
-    tie_in = [s for s in mg.uniq(norm_in) if not has_upper(s) and b".-" not in s]
+    extra = [versions.rubygems(rng, strict=(rng.random() < 0.5)) if rng.random() < 0.8 else exotic(rng) for _ in range(ctx.scale(1500, 20000))]
+    tie_in = [s for s in mg.uniq(norm_in + extra) if not has_upper(s) and b".-" not in s]
     to = ctx.model("svm_gem_tie", [sx([s]) for s in tie_in])
     nb = nwf = 0
     for s, l in zip(tie_in, to):
